@@ -304,11 +304,18 @@ def check_history(ctx: Ctx, hist, steps, origin):
     stale: set[int] = set()
     victims_prev: set[int] = set()
     victims: set[int] = set()       # datasets hit by the stale-trash-row defect; their later inconsistencies are its consequences
+    orphans: set[int] = set()       # ids whose records a removeRuns(unstore=False) deleted while their location row was pending in the
+    #                                 trash: the trash row is the stale row itself (no records, no location row) and no emptyTrash can
+    #                                 ever remove it (the join needs records) -- until the id is stored again (then `stale` above)
 
     def fail(kind, i, what, extra=None, d=None):
         nonlocal failed
         n0 = len(ctx.oracle_failures)
-        if d is not None and (d in victims or d in victims_prev):
+        if d is not None and kind == "target-still-stored" and d in orphans and not (d in victims or d in victims_prev):
+            kind = "stale-trash-row-orphan:" + kind
+            what = (f"dataset {d}'s records were deleted by removeRuns(unstore=False) while its location row was pending in "
+                    f"dataset_location_trash; that row can never be removed again: ") + what
+        elif d is not None and (d in victims or d in victims_prev):
             kind = "stale-trash-row-victim:" + kind
             what = (f"dataset {d} had a stale row in dataset_location_trash while it was stored again and an emptyTrash "
                     f"deleted its records: ") + what
@@ -339,6 +346,11 @@ def check_history(ctx: Ctx, hist, steps, origin):
             victims |= {d for d in stale if d in prev["raw_trash"] and d in prev["raw_loc"] and d not in obs["raw_trash"]}
         stale = {d for d in stale if d in obs["raw_trash"] and d in obs["raw_loc"]}
         victims = {d for d in victims if d in obs["raw_loc"]}
+        has_recs = {r[0] for r in obs["raw_recs"]}
+        if prev is not None and op[0] == "RemoveRuns" and not op[2] and ok:
+            orphans |= {d for d in obs["raw_trash"] if d in prev["raw_trash"] and d not in prev["raw_loc"]
+                        and any(r[0] == d for r in prev["raw_recs"]) and d not in has_recs}
+        orphans = {d for d in orphans if d in obs["raw_trash"] and d not in obs["raw_loc"] and d not in has_recs}
 
         # ---- (1) existence reports tell the truth, for every dataset id, at every step
         for d in range(NDS):
